@@ -103,6 +103,13 @@ def checks(quick, rng):
         if seq.startswith("["):
             for i in idx + SPECIAL_IDX[:4]:
                 out.append("(|| { var v = %s; v[%s] = \"set\"; return v; })()" % (seq, i))
+    # a slice is a fresh sequence: changing it never changes the sequence it was taken from, and vice versa
+    for seq in ["[]", "[1]", "[1, 2, 3]", "[1, [2], \"c\", 4]"]:
+        n = 0 if seq == "[]" else seq.count(",") + 1
+        for a in range(-n - 1, n + 2):
+            for b in range(-n - 1, n + 2):
+                out.append("(|| { var v = %s; var s = v[(%d)..(%d)]; s.push(\"p\"); s[0] = \"m\"; v.push(\"q\"); "
+                           "if v.len() > 1 { v[1] = \"w\"; } return [v, s, v == s]; })()" % (seq, a, b))
     for bad in ["nil", "1", "true", "{1: 2}", "|| 1", "Vec"]:
         out.append("%s[0]" % bad)
         out.append("[1, 2][%s]" % bad)
